@@ -369,7 +369,7 @@ func runCrashSim(r *Run, prop string, cfg PipeCfg, st *Stream, maxCrashes int, c
 			continue
 		}
 		ready := ps.srv.Ready()
-		if ph == 1 && ps.remaining() == 0 && len(ready) == 0 && !in.wasReset {
+		if ph == 1 && ps.remaining() == 0 && len(ready) == 0 && (!in.wasReset || o.maxP >= len(o.expected)) {
 			break
 		}
 		// (an incarnation whose connections the target dropped has not finished: it notices at its next write or
@@ -447,7 +447,6 @@ func runCrashSim(r *Run, prop string, cfg PipeCfg, st *Stream, maxCrashes int, c
 func (ps *PipeSim) targetReset(c *simrt.Chooser) {
 	in := ps.inc
 	ps.r.W.Fault("target_reset_reachable")
-	in.wasReset = true
 	ps.r.Logf("TARGET RESETS the connections of incarnation %d (stays reachable)", in.id)
 	for _, ss := range ps.srv.Live() {
 		if ss.Dead || ss.Conn.Tag != in.id {
@@ -459,6 +458,7 @@ func (ps *PipeSim) targetReset(c *simrt.Chooser) {
 			k = c.Choose("reset_exec_more", n+1)
 		}
 		done := ps.srv.KillSession(ss, k)
+		in.wasReset = true // (only if a connection was there to drop)
 		ps.r.Logf("  %s: %d pending, %d still executed", ss.LabelString(), n, done)
 	}
 	ps.absorb()
